@@ -37,7 +37,7 @@ def shard_env(tier, k, n):
 @st.composite
 def _case(draw, tier):
     big = tier != "quick"
-    fam = draw(st.sampled_from(["hull", "hull", "hull-partial", "voronoi", "latlon", "solid"]))
+    fam = draw(st.sampled_from(["hull", "hull", "hull-partial", "voronoi", "latlon", "solid", "tiny-patch"]))
     if fam == "hull":
         mesh = draw(meshgen.hull_mesh(12, 40 if big else 22, partial=False))
     elif fam == "hull-partial":
@@ -46,6 +46,24 @@ def _case(draw, tier):
         mesh = draw(meshgen.voronoi_mesh(10, 24 if big else 16, renumber=True))
     elif fam == "latlon":
         mesh = draw(meshgen.latlon_mesh_st())
+    elif fam == "tiny-patch":
+        # high-resolution regional patch: cells of 1e-3 .. 0.5 degrees, quads or triangles
+        nx, ny = draw(st.integers(3, 5)), draw(st.integers(3, 5))
+        d = draw(st.sampled_from([1e-3, 1e-2, 0.1, 0.5]))
+        lon0 = draw(st.sampled_from([10.0, 179.9, -0.002, 100.0]))
+        lat0 = draw(st.sampled_from([0.0, 40.0, -70.0, 85.0]))
+        tri = draw(st.sampled_from(["quad", "tri", "mixed"]))
+        nodes = [[((lon0 + i * d + 180.0) % 360.0) - 180.0, lat0 + j * d * 0.8] for j in range(ny) for i in range(nx)]
+        faces = []
+        for j in range(ny - 1):
+            for i in range(nx - 1):
+                a, b, c, e = j * nx + i, j * nx + i + 1, (j + 1) * nx + i + 1, (j + 1) * nx + i
+                if tri == "quad" or (tri == "mixed" and (i + j) % 2 == 0):
+                    faces.append([a, b, c, e])
+                else:
+                    faces += [[a, b, c], [a, c, e]]
+        mesh = meshgen.finish_mesh(draw, [tuple(p) for p in nodes], faces, True)
+        mesh["family"] = "tiny-patch"
     else:
         mesh = draw(meshgen.solid_mesh_st())
     mesh.pop("centers", None)
@@ -70,8 +88,13 @@ def in_domain(mesh):
     xyz = meshgen.mesh_xyz(mesh)
     for f in mesh["faces"]:
         vs = [tuple(xyz[i]) for i in f]
-        if not S.is_strictly_convex(vs, 1e-6):
-            return False
+        # strictly convex, judged on the sine of the turning angle (scale-invariant: tiny cells qualify)
+        nv = len(vs)
+        for i in range(nv):
+            a, b, c = vs[i], vs[(i + 1) % nv], vs[(i + 2) % nv]
+            den = S.norm(S.cross(a, b)) * S.norm(S.cross(b, c))
+            if den <= 0 or S.det3(a, b, c) / den <= 1e-3:
+                return False
         m = np.mean(xyz[f], axis=0)
         nm = float(np.linalg.norm(m))
         if nm < 1e-6:
@@ -100,6 +123,37 @@ def classify(case):
         "mixed-size" in labs or "partial" in labs or "pole-node" in labs or "node-on-antimeridian" in labs or vmax >= 6
     )
     return labs, nontrivial
+
+
+def _judge_second(dual, mesh2, ctx, jit, primal_closed):
+    """Judge dual.get_dual() against mesh2 (the abstract mesh of the first dual): members and cyclic ring order."""
+    INT_DTYPE, FILL = build.consts()
+    out = []
+    faces2, nodes2 = mesh2["faces"], mesh2["nodes"]
+    site = ("closed" if refmodel.is_closed(faces2) else "partial") + ":" + jit + ":dual-of-dual"
+    dd = dual.get_dual()
+    val = refmodel.node_valence(faces2, len(nodes2))
+    expected_nodes = [i for i in range(len(nodes2)) if val[i] >= 3]
+    conn = np.asarray(dd.face_node_connectivity.values)
+    if conn.ndim == 1:
+        conn = conn[None, :]
+    ctx.ev("dual_of_dual")
+    if dd.n_node != len(faces2) or conn.shape[0] != len(expected_nodes):
+        return [Failure("one_face_per_node" if refmodel.is_closed(faces2) else "partial_exactly_valence3plus", site, "counts", f"dual of dual: n_node {dd.n_node} (expected {len(faces2)}), n_face {conn.shape[0]} (expected {len(expected_nodes)})")]
+    for r, i in enumerate(expected_nodes):
+        real = [int(x) for x in conn[r] if x != FILL]
+        if val[i] > 8:
+            continue
+        ring, ring_closed = refmodel.dual_ring(faces2, i)
+        if len(ring) != val[i]:
+            continue
+        if sorted(real) != sorted(ring):
+            return [Failure("ring_members", site, "wrong-set", f"dual of dual: face {r} (node {i}) corners {real}, faces meeting at the node {sorted(ring)}")]
+        n = len(ring)
+        s0 = ring.index(real[0])
+        if real != [ring[(s0 + j) % n] for j in range(n)]:
+            return [Failure("ring_order", site, "not-adjacent-or-clockwise", f"dual of dual: face {r} (node {i}) corners {real}; walking counter-clockwise gives {[ring[(s0 + j) % n] for j in range(n)]}")]
+    return out
 
 
 def run_case(case, ctx):
@@ -216,6 +270,21 @@ def run_case(case, ctx):
     judge_grid(dual, "Grid.get_dual")
     if fails:
         return fails
+    # ---- the dual is a grid like any other: its own dual must obey the property as well
+    dconn = np.asarray(dual.face_node_connectivity.values)
+    if dconn.ndim == 1:
+        dconn = dconn[None, :]
+    mesh2 = {
+        "nodes": [[float(a), float(b)] for a, b in zip(np.asarray(dual.node_lon.values, float), np.asarray(dual.node_lat.values, float))],
+        "faces": [[int(j) for j in row if j != FILL] for row in dconn],
+    }
+    if dual.n_face >= 1 and in_domain(mesh2) and not any(abs(abs(p[1]) - 90.0) < 0.5 and abs(p[1]) != 90.0 for p in mesh2["nodes"]):
+        ctx.label("dual-of-dual-judged")
+        sub = {"mesh": mesh2, "centred": "face", "data": {"lead": [], "dtype": "float64", "values": None, "seed": 1, "scale": 8, "vmax": 8}, "via_uxda_first": False}
+        for f in _judge_second(dual, mesh2, ctx, jit, closed):
+            fails.append(f)
+        if fails:
+            return fails
     if uxda is not None:
         res = dual_from_da
         ctx.ev("data_swapped_unpermuted")
